@@ -71,9 +71,9 @@ def run(ctx):
         n = sum(1 for kk, cc in prop_bad if key_of(kk, cc) == k)
         if kind == "xcases":
             what = ("%d case(s) on leaf '%s' where the real proxy's trace / registry violate the accounting property; e.g. %s: %s; "
-                    "in_flight=%s total=%s listener_active=%s dialer_active=%s" % (
+                    "in_flight=%s total=%s listener_active=%s dialer_active=%s upstream_connections_left_open=%s" % (
                         n, k, case.get("name"), trace_text(case), {a: b for a, b in case.get("in_flight", {}).items() if b},
-                        case.get("total"), case.get("listener_active"), case.get("dialer_active")))
+                        case.get("total"), case.get("listener_active"), case.get("dialer_active"), case.get("upstream_open", 0)))
             ctx.violation("accounting:" + k, {"name": case.get("name"), "kind": "exchange"}, True, what)
         elif kind == "bcases":
             ctx.violation("accounting:" + k, {"kind": "bytes", "obs": case}, True,
